@@ -351,6 +351,9 @@ func execStep(txn *column.Txn, sch *Schema, live []bool, steps []Step, i int, re
 			}
 			writeStore(txn, row, sch.Cols[s.Col], s)
 		}
+		if st.HasPeek {
+			_ = txn.QueryAt(st.Peek, func(pr column.Row) error { _ = pr.Index(); return nil })
+		}
 		if st.Fail {
 			return errStep
 		}
@@ -391,7 +394,7 @@ func execStep(txn *column.Txn, sch *Schema, live []bool, steps []Step, i int, re
 // execDirect runs a single-step transaction through the collection-level
 // convenience methods (Insert, QueryAt, DeleteAt, InsertKey, ...).
 func execDirect(c *column.Collection, sch *Schema, live []bool, t TxnSpec) ([]StepResult, error, bool) {
-	if len(t.Steps) != 1 || t.FailAt >= 0 {
+	if len(t.Steps) != 1 || t.FailAt >= 0 || t.Steps[0].HasPeek {
 		return nil, nil, false
 	}
 	st := t.Steps[0]
